@@ -332,5 +332,24 @@ def fill(claim, na):
         "Trusted: as C08.",
         "DESIGN.md section 2, C09",
     )
-    for p in ["C11", "C15", "C16", "C19"]:
+    claim(
+        "C19",
+        "structural-character set agreement of the Newick parser and writer, construction-check "
+        "and field-set rules, update-shape rules of the clustering loops (custom ast analysis on "
+        "lowered Cython)",
+        "NARROW. Decides: every character the Newick parser gives a meaning to (brackets, comma, "
+        "colon, semicolon) is refused inside labels by the writer (known finding: whitespace, which "
+        "the parser deletes, is not), label<->index lookup, terminator and distance syntax agree; "
+        "Tree.__init__ range-checks leaf indices on both sides (known finding: duplicates are not "
+        "rejected); node construction checks; tree and node copies are built from copied "
+        "children with their distances; __eq__ and __hash__ use the same fields with children as "
+        "a set; distance_to sums both paths to the LCA; UPGMA and NJ search the minimum over the "
+        "unclustered lower triangle, write the merged distances to both triangles, retire exactly "
+        "the absorbed node; UPGMA weights by cluster sizes summed afterwards and uses half the "
+        "distance as height; NJ ends with a three-way join. NOT decided: ultrametricity, "
+        "additivity, path lengths as values.",
+        "Trusted: Cython lowering; float round trip of distances.",
+        "DESIGN.md section 2, C19",
+    )
+    for p in ["C11", "C15", "C16"]:
         na(p, PENDING)
